@@ -21,6 +21,8 @@ Ops == {"delete", "retype_scalar", "retype_map", "retype_seq", "null", "break_es
         "big_number", "negative_number", "nest_deep", "bytes", "none",
         \* a schema position referring to a component that contains itself through each composition keyword
         "cyclic_oneof", "cyclic_anyof", "cyclic_allof", "cyclic_items", "cyclic_required", "cyclic_addl", "cyclic_pair",
+        \* ... through the second of two composition keywords of one schema
+        "cyclic_two_oneof_anyof", "cyclic_two_allof_anyof", "cyclic_two_allof_oneof",
         \* tuple-form items with a null / scalar element
         "tuple_null", "tuple_scalar",
         \* a place that refers to a declared thing by name (security requirement, link operationId,
@@ -54,7 +56,10 @@ OutcomeOK(o, doc) ==
 \* not judged this way: a component made malformed is legitimately reported where it is
 \* referred to.
 SelfOffending == {"unknown_name", "dangling_ref", "break_escape", "wrong_enum_value"}
-Attributed(op, o) == (op \in SelfOffending /\ o.kind = "err" /\ o.locs # <<>>) => o.onpath
+\* The innermost position of the chain -- the most specific one, computed last by looking a
+\* key up in the mapping that holds the fault -- is such a node start too (onpathin): a
+\* position taken from a sibling entry is outside the offending node.
+Attributed(op, o) == (op \in SelfOffending /\ o.kind = "err" /\ o.locs # <<>>) => (o.onpath /\ o.onpathin)
 
 \* A document that is valid before the fault and whose fault leaves data every schema
 \* admits is still accepted: "none" is the control and must be ok.
